@@ -119,7 +119,11 @@ def r2_3_layouts(ctx, prog, rule="R2.3"):
         r = C.expr_of(pa, pa.ret)
         s = repr(r)
         found = True
-        ok = "('op:Add', ('op:Mul', ('op:BitAnd', 'top:raw_value[2]', 7), 100), 'top:raw_value[3]')" in repr(_unconv(r))
+        want_code = ("op:Add", ("op:Mul", ("op:BitAnd", "top:raw_value[2]", 7), 100), "top:raw_value[3]")
+
+        def has(t):
+            return same(t, want_code) or (isinstance(t, tuple) and any(has(x) for x in t))
+        ok = has(bytesem.flatten_elems(_unconv(r)))
         # the bounds the accepted path has established on class and number, from range tests and plain comparisons
         CLS, NUM = ("op:BitAnd", "top:raw_value[2]", 7), "top:raw_value[3]"
         bounds = {repr(CLS): [None, None], repr(NUM): [0, None]}
@@ -129,11 +133,11 @@ def r2_3_layouts(ctx, prog, rule="R2.3"):
                 a = C.expr_of(pa, e[2])
                 rngs[repr(a[1])] = a[0]
                 got = pa.choice(r"%s$" % re.escape(e[4].split("@")[-1]))
-                k = repr(_unconv(a[1]))
+                k = repr(bytesem.flatten_elems(_unconv(a[1])))
                 if k in bounds and got == 1 and isinstance(a[0], tuple) and a[0][0] == "RangeInclusive::new":
                     bounds[k] = [a[0][1], a[0][2]]
         for op, a, b, v in pa.guards():
-            k = repr(_unconv(a))
+            k = repr(bytesem.flatten_elems(_unconv(a)))
             if k in bounds and isinstance(b, int):
                 if (op, v) in (("Gt", 0), ("Le", 1)):
                     bounds[k][1] = b
@@ -157,7 +161,8 @@ def r2_3_layouts(ctx, prog, rule="R2.3"):
             if fn == "number":
                 ok = "('op:Rem', 'top:e.error_code', 100)" in s
             else:
-                ok = "('op:Div', ('op:Sub', 'top:e.error_code'" in s and ", 100)" in s
+                # (code - code % 100) / 100, or the equal code / 100 (integer division already discards the remainder)
+                ok = ("('op:Div', ('op:Sub', 'top:e.error_code'" in s and ", 100)" in s) or _unconv(r) == ("op:Div", "top:e.error_code", 100)
             ctx.ob(rule, "error-code:%s" % fn, ok, "%s() = %s" % (fn, show(r)[:200]), info["where"])
             break
     ic = "stun_rs::attributes::turn::icmp::Icmp"
@@ -668,8 +673,8 @@ def r2_13_xor_addresses(ctx, prog, rule="R2.13"):
         probs = []
         if info["bounded"] or n is None:
             probs.append("exploration incomplete or unknown family %s" % fam)
-        okr = isinstance(r, tuple) and r[0] == "SocketAddr::new" and r[2] == port and isinstance(r[1], tuple) and r[1][0] == "IpAddr::%s" % fam \
-            and "octets" in repr(r[1])
+        okr = isinstance(r, tuple) and r[0] == "SocketAddr::new" and same(r[2], port) and isinstance(r[1], tuple) \
+            and r[1][0] in ("IpAddr::%s" % fam, "IpAddr::from") and "Ipv%sAddr::octets" % fam[1] in repr(r[1])
         if not okr:
             probs.append("result is %s" % show(r)[:100])
         masks = {}
